@@ -371,6 +371,15 @@ def gen_mvcc_visit(rng, tier):
             sim.refs.append(1)
     sim.lines.append('snap')
     sim.refs.append(1)
+    if rng.random() < 0.4:
+        # every key deleted and re-inserted after the snapshot: the structure (and so the pivots) is made of
+        # versions the older snapshots cannot see
+        for k in range(sim.nkeys):
+            kk = k * 3 + 1
+            sim.lines.append('del %d %d' % (sim.w(), kk))
+            sim.lines.append('put %d %d %d' % (sim.w(), kk, rng.randrange(3) if sim.kv else 0))
+        sim.lines.append('snap')
+        sim.refs.append(1)
     for _ in range(rng.randrange(1, 5)):
         s = rng.choice(sim.open_snaps())
         line = 'visit %d shards=%d conc=%d' % (s + 1, rng.choice((1, 2, 3, 4, 7, 16, 40, 200)), rng.choice((1, 2, 3, 8)))
@@ -653,6 +662,9 @@ def gen_backup(rng, tier):
     delta = rng.random() < 0.5
     if delta:
         sim.lines[0] += ' delta=1'
+    if rng.random() < 0.5:
+        # a small refresh rate for the Visitor's iterators: by default only shards above 10000 steps ever refresh
+        sim.lines[0] += ' rr=%d' % rng.choice((1, 1, 2, 7))
     sim.nkeys = rng.choice((1, 3, 8, 30, 120))
     for _ in range(rng.randrange(3, 60 if tier == 'quick' else 400)):
         r = rng.random()
@@ -680,7 +692,8 @@ def gen_backup(rng, tier):
     sim.lines.append('scan %d' % (s + 1))
     line = 'store %d conc=%d' % (s + 1, rng.choice((1, 2, 3, 8)))
     if rng.random() < 0.6:
-        ks = sorted(set(sim.key() for _ in range(rng.randrange(0, 6))))
+        nk = rng.randrange(0, 6) if rng.random() < 0.6 else rng.randrange(5, 60)
+        ks = sorted(set(sim.key() for _ in range(nk)))
         line += ' churn=' + (','.join(map(str, ks)) if ks else '.')
         if delta and rng.random() < 0.5:
             line += ' churnat=gc'
@@ -1111,3 +1124,42 @@ def gen_skipconc_scan(rng, tier, sess):
     sess.send('start 0 it_close s')
     sess.send('walk')
     sess.send('stats')
+
+
+
+def gen_backup_stress(rng, tier):
+    """delta-mode backup of a multi-shard snapshot in user-managed memory with a refresh rate of 1 or 2, while half
+    of the stored keys (always including the smallest ones) are deleted and collected during the backup: every item
+    the backup has not yet written reaches it through the delta log only, pivots and cursor items are freed under it"""
+    sim = MvccSim(rng, tier, mem='mm')
+    sim.lines[0] += ' delta=1 rr=%d' % rng.choice((1, 1, 2))
+    nk = rng.choice((40, 120, 300))
+    keys = [k * 3 + 1 for k in range(nk)]
+    for k in keys:
+        sim.lines.append('put %d %d %d' % (sim.w(), k, rng.randrange(3) if sim.kv else 0))
+    if rng.random() < 0.5:
+        # older versions of some keys pinned by an older snapshot
+        sim.lines.append('snap')
+        sim.refs.append(1)
+        for k in rng.sample(keys, nk // 4):
+            sim.lines.append('del %d %d' % (sim.w(), k))
+            sim.lines.append('put %d %d %d' % (sim.w(), k, rng.randrange(3) if sim.kv else 0))
+    sim.lines.append('snap')
+    sim.refs.append(1)
+    s = len(sim.refs) - 1
+    sim.lines.append('scan %d' % (s + 1))
+    for i in range(len(sim.refs) - 1):
+        sim.lines.append('close %d' % (i + 1))
+        sim.refs[i] = 0
+    churn = sorted(set(keys[:4] + rng.sample(keys, nk // 2)))
+    sim.lines.append('store %d conc=%d churn=%s%s' % (s + 1, rng.choice((1, 2, 4)), ','.join(map(str, churn)), rng.choice(('', ' churnat=gc'))))
+    sim.refs[s] = 0
+    sim.refs.append(0)
+    sim.lines.append('gcwait')
+    sim.lines.append('load conc=%d pre=%d' % (rng.choice((1, 4)), rng.randrange(2)))
+    sim.lines.append('scan 1')
+    sim.lines.append('count 1')
+    sim.lines.append('close 1')
+    sim.lines.append('gcwait')
+    sim.lines.append('shutdown')
+    return sim.lines
